@@ -9,6 +9,10 @@ import rsparse
 from common import run, sha, cache_get, cache_put, Undecided, BUILD
 
 VERUS_VERSION = None
+# messages with which Verus reports a failed proof obligation (a verdict, as opposed to a front-end error)
+VERDICT = re.compile(r'postcondition not satisfied|precondition not satisfied|assertion failed|possible arithmetic (overflow|underflow)|'
+                     r'possible division by zero|invariant not satisfied|panic|unreachable|index out of bounds|cannot show|decreases not satisfied|'
+                     r'failed this|might fail|not satisfied')
 
 
 def verus_version():
@@ -127,8 +131,14 @@ def run_verus(name, text, extra_args=(), timeout=900, rlimit=None):
         entry = {'message': msg, 'obligation': ob['id'] if ob else None,
                  'lines': [s['line_start'] for s in spans], 'rendered': dg.get('rendered', '')[:3000]}
         low = msg.lower()
+        code = (dg.get('code') or {}).get('code') if isinstance(dg.get('code'), dict) else dg.get('code')
+        is_verdict = code is None and VERDICT.search(low) is not None
         if 'rlimit' in low or 'resource limit' in low or 'timeout' in low or 'not supported' in low or 'unsupported' in low:
             res['undecided'].append(dict(entry, reason=msg))
+        elif not is_verdict:
+            # rustc / Verus front-end rejected the generated text: construct outside the extractor's reach
+            res['undecided'].append(dict(entry, reason='generated text rejected before verification (unsupported construct in '
+                                         + (ob['id'] if ob else 'unattributed text') + '): ' + msg))
         elif ob is None:
             if not vr.get('encountered-vir-error'):
                 res['undecided'].append(dict(entry, reason='verifier error outside any named obligation: ' + msg))
